@@ -41,6 +41,11 @@ def gen_c18(tier, rng):
     for d in (1, 2, 3):
         for seq in itertools.product(OA, repeat=d):
             out.append(case("own", "o", ";".join(seq)))
+    # the same histories over optional<bool> and over optional<T> for a T with a catch-all converting constructor
+    for d in (1, 2):
+        for seq in itertools.product(OA, repeat=d):
+            out.append(case("own", "ob", ";".join(seq)))
+            out.append(case("own", "og", ";".join(seq)))
     if big:
         for seq in itertools.product(QA[::2], repeat=4):
             out.append(case("own", "q", ";".join(seq)))
@@ -75,7 +80,7 @@ def gen_c18(tier, rng):
                 ops.append("clr:%d" % c())
             else:
                 ops.append("rd:%d" % c())
-        out.append(case("own", "o", ";".join(ops)))
+        out.append(case("own", rng.choice(["o", "o", "ob", "og"]), ";".join(ops)))
     return out
 
 
